@@ -247,3 +247,87 @@ def str_templates(expr):
         # dynamic part
         return [((), "{%s}" % U(e))]
     return go(expr)
+
+
+def value_cases(fn, name, before=None, common=()):
+    """The possible definitions of the local ``name`` (as reaching ``before``) as a set of (frozenset of extra guard atoms, value text).
+
+    Understands a conditional expression (one case per branch), an assignment nested under conditions, and the
+    'default, then conditional override' idiom (x = A; if c: x = B  ==  x = B if c else A for a single-atom c).
+    ``common``: guard atoms shared with the use site, removed from every case.  Returns None when the shape is not understood."""
+    from .model import _flatten_atom
+    asg = [a for a in walk_body(fn.body) if isinstance(a, ast.Assign) and len(a.targets) == 1 and isinstance(a.targets[0], ast.Name) and a.targets[0].id == name
+           and (before is None or a.lineno < before.lineno)]
+    asg.sort(key=lambda a: (a.lineno, a.col_offset))
+    if not asg:
+        return None
+    common = set(common)
+    shared = None
+    for a in asg:
+        ga = set(guard_texts(a))
+        shared = ga if shared is None else shared & ga
+    common |= shared or set()
+
+    def cases_of(a):
+        g = frozenset(guard_texts(a) - common)
+        v = a.value
+        if isinstance(v, ast.IfExp):
+            t, f = [], []
+            _flatten_atom(v.test, True, t)
+            _flatten_atom(v.test, False, f)
+            return [(g | frozenset((U(e), p) for e, p in t), U(v.body)), (g | frozenset((U(e), p) for e, p in f), U(v.orelse))]
+        return [(g, U(v))]
+    out = []
+    for i, a in enumerate(asg):
+        cs = cases_of(a)
+        if i == 0:
+            out = cs
+            continue
+        # a later assignment overrides the earlier cases where its guard holds
+        for g, v in cs:
+            extra = g
+            if len(extra) != 1:
+                return None
+            (t, p), = tuple(extra)
+            new = []
+            for g0, v0 in out:
+                if (t, p) in g0:
+                    continue                  # overridden entirely
+                if (t, not p) in g0:
+                    new.append((g0, v0))      # disjoint
+                else:
+                    new.append((g0 | frozenset([(t, not p)]), v0))
+            new.append((g, v))
+            out = new
+    return set(out)
+
+
+def regex_table_of(mod, it):
+    """Name of the module-level table of pattern strings a loop iterates: the table itself, or a module-level list of
+    re.compile(<element>) built from it by a comprehension (patterns compiled once at import)."""
+    if isinstance(it, ast.Name):
+        v = mod.top.get(it.id)
+        if isinstance(v, (ast.ListComp, ast.GeneratorExp)) or (isinstance(v, ast.Call) and call_name(v) in ("list", "tuple") and v.args and isinstance(v.args[0], (ast.ListComp, ast.GeneratorExp))):
+            lc = v if isinstance(v, (ast.ListComp, ast.GeneratorExp)) else v.args[0]
+            g = lc.generators[0]
+            if len(lc.generators) == 1 and not g.ifs and isinstance(lc.elt, ast.Call) and call_name(lc.elt) == "re.compile" and len(lc.elt.args) == 1 \
+                    and not lc.elt.keywords and U(lc.elt.args[0]) == U(g.target) and isinstance(g.iter, ast.Name):
+                return g.iter.id
+        return it.id
+    return None
+
+
+def sub_calls(body):
+    """Substitution calls in normal form: [(node, pattern expr, template expr, subject expr, count expr or None)] for
+    re.sub(p, t, s[, count]) and <compiled>.sub(t, s[, count])."""
+    out = []
+    for n in walk_body(body):
+        if not isinstance(n, ast.Call):
+            continue
+        kw = dict((k.arg, k.value) for k in n.keywords if k.arg)
+        if call_name(n) == "re.sub" and len(n.args) >= 3:
+            out.append((n, n.args[0], n.args[1], n.args[2], n.args[3] if len(n.args) > 3 else kw.get("count")))
+        elif call_attr(n) == "sub" and isinstance(n.func, ast.Attribute) and call_name(n) != "re.sub" and len(n.args) >= 2 and U(n.func.value) != "re":
+            out.append((n, n.func.value, n.args[0], n.args[1], n.args[2] if len(n.args) > 2 else kw.get("count")))
+    out.sort(key=lambda t: (t[0].lineno, t[0].col_offset))
+    return out
